@@ -22,9 +22,9 @@ Definition sc_patch (n i : nat) (r : vec) (b : Qc) : aff :=
      a_bias := map (fun j => if Nat.eqb j i then b else 0) (seq 0 n) |}.
 Definition sc_zero_idx (n i : nat) : aff := sc_patch n i (vzero n) 0.
 Definition sc_constant (n : nat) (v : Qc) : aff := sc_rowf n (vzero n) v.
-(* matrix[[0,left]] = 1; matrix[[0,right]] = -1  (the second assignment wins when left = right) *)
+(* matrix[[0,left]] = 1; matrix[[0,right]] -= 1  (the zero row when left = right, since /repo 75c1cad) *)
 Definition sc_subrow (n l r : nat) : vec :=
-  map (fun j => if Nat.eqb j r then - (1) else if Nat.eqb j l then 1 else 0) (seq 0 n).
+  map (fun j => (if Nat.eqb j l then 1 else 0) - (if Nat.eqb j r then 1 else 0)) (seq 0 n).
 Definition sc_subtraction (n l r : nat) : aff := sc_rowf n (sc_subrow n l r) 0.
 (* AffFunc::slice: None = NaN marker = free axis *)
 Definition sc_isfree (o : option Qc) : bool := match o with None => true | Some _ => false end.
@@ -34,6 +34,9 @@ Definition sc_slice (r : list (option Qc)) : aff :=
      a_bias := map (fun j => match nth j r (Some 0) with None => 0 | Some v => v end) (seq 0 (length r)) |}.
 
 (* ---------------------------------------------------------------- activation functions on one component *)
+(* every activation generator asserts row < dim; hard tanh additionally min_val <= max_val *)
+Definition act_defined (n i : nat) : bool := Nat.ltb i n.
+Definition hard_tanh_defined (n i : nat) (lo hi : Qc) : bool := Nat.ltb i n && qleb lo hi.
 Definition partial_relu (n i : nat) : ptree :=
   D (sc_unit n i) [T (sc_identity n); T (sc_zero_idx n i)].
 Definition partial_leaky_relu (n i : nat) (alpha : Qc) : ptree :=
